@@ -173,7 +173,18 @@ class _P:
                     params = self.params()
                     t = Ty('func', inner=t, params=params)
                 while self.peek() in ('const', 'noexcept', 'volatile', '&', '&&'):
-                    self.eat()
+                    if self.eat() == 'noexcept' and self.peek() == '(':
+                        depth = 0
+                        while True:
+                            tk = self.eat()
+                            if tk == '(':
+                                depth += 1
+                            elif tk == ')':
+                                depth -= 1
+                                if depth == 0:
+                                    break
+                            elif tk is None:
+                                raise TypeParseError('unbalanced noexcept(...) in %r' % self.s)
             else:
                 return t
 
